@@ -199,6 +199,9 @@ func run(ch simrt.Chooser, prop string, keep bool) *kit.Outcome {
 	res := simrt.Run(simrt.RunConfig{KeepLog: keep, StepCap: 100000}, ch, w.main)
 	o := &kit.Outcome{Res: res, Viol: w.viol}
 	if res.End == "stepcap" {
+		// a goroutine that never parks (busy polling) keeps the simulation from
+		// settling although it may well make progress in a real execution: that is
+		// not decidable here, so it is infrastructure trouble, never a verdict
 		o.Infra = "step cap reached: " + strings.Join(res.Blocked, "; ")
 	}
 	if res.End == "deadlock" {
